@@ -308,6 +308,108 @@ func vC20QuantLengths(c *vCtx, maxL int) {
 	c.Bound = fmt.Sprintf("vector lengths 0..%d", maxL)
 }
 
+// vC20QuantHist: every history of length <= depth over one Int8Quantizer OBJECT:
+// Train(range 2) / Train(range 8) / Train(zeros) / SetAbsMax(1) / SetAbsMax(4) /
+// SetAbsMax(0) / Quantize (a use) / Dequantize (a use). After the history the object
+// must behave as its current range says: refuse when the range is 0, reconstruct within
+// absMax/254 otherwise, and answer bit-identically to a FRESH quantiser given the same
+// range (no residue of earlier ranges or earlier uses).
+func vC20QuantHist(c *vCtx, depth int) {
+	cfgS := "quantizer histories"
+	names := []string{"Train(2)", "Train(8)", "Train(zeros)", "SetAbsMax(1)", "SetAbsMax(4)", "SetAbsMax(0)", "Quantize", "Dequantize"}
+	apply := func(q *Int8Quantizer, op int, am float32) float32 {
+		switch op {
+		case 0:
+			q.Train([][]float32{{0.5, -2}, {1}})
+			return 2
+		case 1:
+			q.Train([][]float32{{8}})
+			return 8
+		case 2:
+			q.Train([][]float32{{0, 0}})
+			return 0
+		case 3:
+			q.SetAbsMax(1)
+			return 1
+		case 4:
+			q.SetAbsMax(4)
+			return 4
+		case 5:
+			q.SetAbsMax(0)
+			return 0
+		case 6:
+			q.Quantize([]float32{0.25, -0.5})
+		case 7:
+			q.Dequantize([]int8{5, -100})
+		}
+		return am
+	}
+	var seq []int
+	var rec func()
+	rec = func() {
+		if len(seq) > 0 {
+			c.Traces++
+			c.Transitions++
+			q := &Int8Quantizer{}
+			am := float32(0)
+			var h []string
+			for _, op := range seq {
+				am = apply(q, op, am)
+				h = append(h, names[op])
+			}
+			c.Evaluations++
+			if q.GetAbsMax() != am || q.IsTrained() != (am > 0) {
+				c.Violation("int8-history", "range", cfgS, h, fmt.Sprintf("GetAbsMax=%v IsTrained=%v, expected range %v", q.GetAbsMax(), q.IsTrained(), am))
+			}
+			in := []float32{am, -am, am / 2, am / 3, -am / 7, 0, am * 0.999}
+			st, err := q.Quantize(in)
+			if am == 0 {
+				if err == nil {
+					c.Violation("int8-history", "usable-without-range", cfgS, h, "Quantize succeeded although the current range is 0")
+				}
+				if _, err := q.Dequantize([]int8{1}); err == nil {
+					c.Violation("int8-history", "usable-without-range", cfgS, h, "Dequantize succeeded although the current range is 0")
+				}
+			} else if err != nil {
+				c.Violation("int8-history", "refused", cfgS, h, err.Error())
+			} else {
+				fresh := &Int8Quantizer{}
+				fresh.SetAbsMax(am)
+				fst, _ := fresh.Quantize(in)
+				out, err := q.Dequantize(st)
+				fout, _ := fresh.Dequantize(fst)
+				if err != nil || len(out) != len(in) {
+					c.Violation("int8-history", "dequantize", cfgS, h, fmt.Sprintf("err=%v len=%d", err, len(out)))
+				} else {
+					bound := float64(am)/254*(1+1e-5) + float64(am)*1e-6
+					for i := range in {
+						if math.Abs(float64(in[i])-float64(out[i])) > bound {
+							c.Violation("int8-history", "error-above-absmax-over-254", cfgS, h, fmt.Sprintf("range %v: %v -> %v (bound %v)", am, in[i], out[i], bound))
+							break
+						}
+					}
+					if fmt.Sprint(st) != fmt.Sprint(fst) || !vBitsEq(out, fout) {
+						c.Violation("int8-history", "differs-from-fresh-quantizer", cfgS, h, fmt.Sprintf("range %v: codes %v / %v, values %v / %v", am, st, fst, out, fout))
+					}
+				}
+				c.Nontrivial("qhist|" + strings.Join(h, ","))
+			}
+		}
+		if len(seq) == depth {
+			return
+		}
+		for op := range names {
+			seq = append(seq, op)
+			rec()
+			seq = seq[:len(seq)-1]
+		}
+	}
+	rec()
+	c.NewState(cfgS)
+	c.Sample("Train(2); Quantize; SetAbsMax(4) => behaves exactly like a fresh quantiser with range 4")
+	c.Bound = fmt.Sprintf("all histories of length <= %d over 8 operations", depth)
+}
+
 func vC20TrainTwice(c *vCtx, tier string) {
 	for _, cfg := range vC02Configs(tier) {
 		if cfg.Kind != "ivf" && cfg.Kind != "pq" && cfg.Kind != "ivfpq" {
@@ -576,6 +678,11 @@ func init() {
 			sh = append(sh, vShard{Name: "kmeans/sweep", Run: func(c *vCtx) { vC20KMeansSweep(c, sweepN) }})
 			sh = append(sh, vShard{Name: "quantizers/lengths", Run: func(c *vCtx) { vC20QuantLengths(c, qlen) }})
 			sh = append(sh, vShard{Name: "train-twice", Run: func(c *vCtx) { vC20TrainTwice(c, tier) }})
+			qd := 5
+			if tier == "thorough" {
+				qd = 6
+			}
+			sh = append(sh, vShard{Name: "quantizers/histories", Run: func(c *vCtx) { vC20QuantHist(c, qd) }})
 			qparts := 8
 			for p := 0; p < qparts; p++ {
 				p := p
@@ -591,6 +698,8 @@ func init() {
 				vC20KMeans(c, 2, 3, 0, 1)
 			case v.Config == "kmeans sweep":
 				vC20KMeansSweep(c, 300)
+			case v.Config == "quantizer histories":
+				vC20QuantHist(c, len(v.History))
 			case v.Config == "quantizers lengths":
 				vC20QuantLengths(c, 600)
 			case strings.HasPrefix(v.Config, "train-twice"):
